@@ -20,6 +20,39 @@ def sh(cmd, cwd=None, timeout=7200, env=None):
     return p.returncode, p.stdout, p.stderr
 
 
+def run_until_violation(cmd, cwd, env, timeout=7200):
+    """bulk screening only: the check is stopped shortly after its first VIOLATION line (the recorded results come from seed_record.py,
+    which always lets the check run to its end)"""
+    import signal, tempfile, threading
+    errf = tempfile.TemporaryFile(mode="w+")
+    p = subprocess.Popen(cmd, cwd=cwd, shell=True, stdout=subprocess.PIPE, stderr=errf, text=True, env=env, start_new_session=True)
+    out = []
+    t0 = time.time()
+    killer = {"at": None}
+
+    def watchdog():
+        while p.poll() is None:
+            if (killer["at"] and time.time() > killer["at"]) or time.time() - t0 > timeout:
+                try:
+                    os.killpg(p.pid, signal.SIGKILL)
+                except ProcessLookupError:
+                    pass
+                return
+            time.sleep(1)
+    threading.Thread(target=watchdog, daemon=True).start()
+    for line in p.stdout:
+        out.append(line)
+        if line.startswith("VIOLATION") and killer["at"] is None and os.environ.get("SEED_FULL") != "1":
+            killer["at"] = time.time() + 8
+    p.wait()
+    errf.seek(0)
+    e = errf.read()
+    rc = p.returncode
+    if killer["at"] is not None and rc != 0:
+        rc = 1
+    return rc, "".join(out), e
+
+
 os.makedirs("/root/scratch/vseed", exist_ok=True)
 if "VERIF_SRC" not in os.environ:
     # screen with the COMMITTED /verif (edits in progress in the working tree must not leak into a screening run)
@@ -42,7 +75,7 @@ env = dict(os.environ, VERIF_REPO=wt)
 try:
     for c in checks:
         t0 = time.time()
-        rc, o, e = sh("./check %s --tier %s" % (c, tier), cwd=clone, env=env)
+        rc, o, e = run_until_violation("./check %s --tier %s" % (c, tier), clone, env)
         viol = [l for l in o.splitlines() if l.startswith("VIOLATION")]
         what = [l.strip()[:400] for l in e.splitlines() if l.startswith("  -> ")]
         res["checks"][c] = {"exit": rc, "violations": len(viol), "first": what[:3], "known": len([l for l in o.splitlines() if l.startswith("KNOWN-FINDING")]),
